@@ -90,7 +90,7 @@ variable {α : Type}
 def display (render : α → List Char) (m : Matrix α) : M (List Char) :=
   if m.data.size = 0 then .ok ['[', ']']
   else
-    let cache := m.data.map fun e => lines (render e)
+    let cache := (m.data.toList.map fun e => lines (render e)).toArray
     let w := maxOf (cache.toList.map fun ls => maxOf (ls.map List.length))
     let h := maxOf (cache.toList.map List.length)
     do
@@ -109,7 +109,7 @@ def debugHeader (ncols iw w : Nat) : (col : Nat) → (todo : Nat) → List Char 
 def debug (render : α → List Char) (m : Matrix α) : M (List Char) :=
   if m.data.size = 0 then .ok ['[', ']']
   else
-    let cache := m.data.map fun e => lines (render e)
+    let cache := (m.data.toList.map fun e => lines (render e)).toArray
     let w := maxOf (cache.toList.map fun ls => maxOf (ls.map List.length))
     let h := maxOf (cache.toList.map List.length)
     let iw := (toString m.data.size).length
